@@ -8,7 +8,9 @@ deviations; children of a vector add one deviation at a later point, so each vec
 import multiprocessing
 import os
 
-from vf.core import HarnessError, Partial, _Guard, _WorkerFailure
+from vf.core import HarnessError, JobTimeout, Partial, _Guard, _WorkerFailure, bounded_imap
+
+EXEC_LIMIT = float(os.environ.get('VF_EXEC_LIMIT', '900'))
 
 
 class Divergence(HarnessError):
@@ -84,9 +86,28 @@ def explore(ck, exec_fn, configs, bound, child_filter=None, max_execs=None, chun
                 ck.cap('execution cap %d: level %d has %d vectors (levels below %d complete)'
                        % (max_execs, depth, len(level), depth))
                 break
-            it = pool.imap(_Guard(_worker), level, chunksize) if pool else map(_Guard(_worker), level)
+            it = (bounded_imap(pool, _Guard(_worker), level, chunksize, EXEC_LIMIT) if pool
+                  else map(_Guard(_worker), level))
             nxt = []
-            for r in it:
+            hung = False
+            while True:
+                try:
+                    r = next(it)
+                except StopIteration:
+                    break
+                except JobTimeout as e:
+                    # one execution = milliseconds to seconds; deadlocks and virtual-time overruns are verdicts of the
+                    # scheduler itself, so this is code that neither returns nor reaches a scheduling point
+                    ci, cfg, devs, _ = level[e.index]
+                    ck.case(key=('hang', ci, devs), outcome=('hang',))
+                    ck.sample({'part': 'hang', 'config': repr(cfg)[:200], 'devs': [list(d) for d in devs]})
+                    ck.cap('an execution did not end within %.0f s of real time; exploration stopped' % EXEC_LIMIT)
+                    ck.violation('hang:execution_without_result', 'configuration %r, deviation vector %r (or one of the %d '
+                                 'after it): the execution did not end within %.0f s of real time (no scheduling point is '
+                                 'reached any more)' % (cfg, devs, chunksize - 1, EXEC_LIMIT),
+                                 {'part': 'hang', 'config_index': ci, 'devs': [list(d) for d in devs]})
+                    hung = True
+                    break
                 if isinstance(r, _WorkerFailure):
                     raise HarnessError('worker failed:\n' + r.text)
                 ci, part, kids, npts = r
@@ -96,6 +117,8 @@ def explore(ck, exec_fn, configs, bound, child_filter=None, max_execs=None, chun
                 if kids:
                     for k in kids:
                         nxt.append((ci, configs[ci], k, depth + 1 < bound))
+            if hung:
+                break
             per_level.append(len(level))
             level = nxt
             completed = depth
